@@ -32,7 +32,7 @@ ANCHORS = [
     "raggedshape.py::RaggedView2._calculate_lengths",
     "raggedshape.py::build_indices",
 ]
-RECVS = ["fresh", "lazyrows", "lazycols+2", "lazycols-1", "lazychain", "ufunc", "astype", "deepcopy", "pickle", "copy-of-lazy", "readonly", "saveload", "concat", "fromnumpy", "tonumpy-called", "subclass", "was-argument", "byteswapped"]
+RECVS = ["fresh", "lazyrows", "lazycols+2", "lazycols-1", "lazychain", "ufunc", "astype", "deepcopy", "pickle", "copy-of-lazy", "readonly", "saveload", "concat", "fromnumpy", "fromnumpy-F", "tonumpy-called", "subclass", "was-argument", "byteswapped"]
 FLOOR_TAGS = ["recv:" + r_ for r_ in RECVS] + ["mask-as-list", "r:int", "r:slice+1", "r:slice+k", "r:slice-", "r:list", "r:array", "r:mask", "r:ell",
               "c:none", "c:int+", "c:int-", "c:slice+1", "c:slice+k", "c:slice-",
               "must-refuse", "sel-has-empty-row", "ellipsis-padded", "e-first", "e-last", "e-mid", "e-consec", "allempty", "norows"]
@@ -72,11 +72,13 @@ def build_receiver(recv, flat, lens):
         import copy
         lazy, parent = build_receiver("lazycols+2", flat, lens)
         return copy.deepcopy(lazy), None
-    if recv in ("fromnumpy", "tonumpy-called"):
+    if recv in ("fromnumpy", "fromnumpy-F", "tonumpy-called"):
         # rectangular contents only (all rows equally long, at least one row): built from a 2-D numpy array / converted to one before use
         if len(lens) and len(set(lens)) == 1:
             if recv == "fromnumpy":
                 return RA.from_numpy_array(flat.copy().reshape(len(lens), lens[0])), None
+            if recv == "fromnumpy-F":       # the source matrix is Fortran-ordered (its flattening is a copy, not a view)
+                return RA.from_numpy_array(np.asfortranarray(flat.copy().reshape(len(lens), lens[0]))), None
             x = RA(flat.copy(), list(lens))
             x.to_numpy_array()
             return x, None
